@@ -70,13 +70,14 @@ SHAPES = [
     ("typename", "{ __typename o { __typename x } a }", ["Query.o", "Obj.x", "Query.a"]),
     # root type with exactly one field, selected repeatedly through aliases (schema-shape shortcuts)
     ("single-root", "{ p: o { x } q: o(id: 2) { x o { x } } }", ["Query.o", "Obj.x", "Obj.o"], "single"),
+    ("objects", "{ things { id ... on Obj { x } ... on Other { z } } a }", ["Query.things", "Query.a"]),
     ("empty-list", "{ el { x } a nums }", ["Query.el", "Query.a", "Query.nums"]),
     ("scalar-list", "{ nums a w }", ["Query.nums", "Query.a", "Query.w"]),
     # a response key selected directly and again inside a later fragment, another key in between
     ("dup-in-fragment", "{ a ...F w } fragment F on Query { b a o { x } }", ["Query.a", "Query.b", "Query.w", "Obj.x"]),
     ("fragments", "{ ...F ... on Query { b } } fragment F on Query { a o { ...G } } fragment G on Obj { x y }", ["Query.a", "Query.b", "Obj.x", "Obj.y"]),
 ]
-STYLES = ("default", "sync", "async", "nested")
+STYLES = ("default", "sync", "async", "nested", "submit")
 
 
 def _style_assignments(coords, tier):
@@ -106,6 +107,9 @@ def _style_assignments(coords, tier):
         for base in ("default", "sync"):
             c = [base] * k
             c[i] = "nested"
+            out.append(tuple(c))
+            c = [base] * k
+            c[i] = "submit"
             out.append(tuple(c))
     for c in out:
         if c not in seen and any(x != "default" for x in c):
